@@ -157,6 +157,11 @@ def oracle(rep, scen, schedule, run, parsed, reference_out):
     if run["rc"] == "timeout":
         v("blocks-forever", "delta did not terminate within %d s under the forced schedule" % RUN_TIMEOUT)
     published = parsed["known"] is not None
+    before_pub = set()
+    for o in parsed["order"]:
+        if o == "known":
+            break
+        before_pub.add(int(o[3:]))
     for k in sorted(parsed["queries"]):
         q = parsed["queries"][k]
         if not q["ret"]:
@@ -166,6 +171,10 @@ def oracle(rep, scen, schedule, run, parsed, reference_out):
             continue
         if res == "Pending":
             v("pending-returned", "query %d returned Pending" % k)
+        elif published and k in before_pub and res != parsed["known"]:
+            v("query-before-publication",
+              "delta launched the command itself (%r) but query %d was answered before set_calling_process "
+              "published it and returned the background guess %r" % (parsed["known"], k, res))
         elif published and res != parsed["known"]:
             v("guess-after-publication",
               "query %d returned %r although %r had been published by set_calling_process" % (k, res, parsed["known"]))
@@ -284,6 +293,202 @@ def run(ctx, rep):
         shutil.rmtree(wd, ignore_errors=True)
 
 
+
+# ---------------------------------------------------------------------------------------------
+# Subcommand mode on a real repository: `delta git diff --word-diff …`, `delta git grep …`, `delta rg …`
+# (real git / rg). The launched command must be what EVERY query sees, from the first one (made
+# while the configuration is built: `is_word_diff`, cached for the process) on.
+
+REPO_SCRIPT = r"""set -e
+git init -q -b main .
+printf -- '- first item\n  indented words here\n+ plus line\nplain\n' > notes.txt
+printf 'fn main() {\n    let words = 1;\n}\n' > a.rs
+git add . && git commit -q -m one
+printf -- '- first item\n  indented WORDS here\n+ plus line\nplain text\n' > notes.txt
+printf 'fn main() {\n    let words = 2;\n}\n' > a.rs
+git commit -q -a -m two
+"""
+
+# name -> (delta options, launched command, is a word diff)
+SUBCOMMANDS = {
+    "git-diff--word-diff": (["--line-numbers"], ["git", "diff", "--word-diff", "HEAD~1", "--", "notes.txt"], True),
+    "git-diff--color-words": (["--side-by-side"], ["git", "diff", "--color-words", "HEAD~1", "--", "notes.txt"], True),
+    "git-show--word-diff-regex": (["--line-numbers"], ["git", "show", "--word-diff-regex=.", "HEAD", "--", "notes.txt"], True),
+    "git-log--word-diff": (["--line-numbers"], ["git", "log", "-p", "-1", "--word-diff", "--", "notes.txt"], True),
+    "git-diff": (["--line-numbers"], ["git", "diff", "HEAD~1"], False),
+    "git-grep": ([], ["git", "grep", "-n", "words"], False),
+    "rg": ([], ["rg", "words"], False),
+}
+# what delta really executes for a launched command (subcommands/external.rs)
+LAUNCH_PREFIX = {"git": ["git", "-c", "color.ui=always"], "rg": ["rg", "--json"]}
+# Violating trace of Caller.stepMainLatePub (C20.late_publication_violates_known_wins): first query before the publication
+ATTACK_LATE_PUB = ("q1.lock,q1.check,b.compute,b.lock,b.load,b.store,b.notify,b.unlock,q1.check,"
+                   "m.lock,m.store,m.flag,m.notify,m.unlock,q2.lock,q2.check")
+
+import re as _re
+_SGR = _re.compile(r"\x1b\[[0-9;]*[mK]")
+
+
+def sub_env(wd, extra=None):
+    e = dict(os.environ)
+    for k in list(e):
+        if k.startswith("GIT_") or k.startswith("DELTA_") or k in ("PAGER", "BAT_PAGER", "BAT_THEME", "COLORTERM", "LESS", "COLUMNS"):
+            e.pop(k)
+    e.update(HOME=os.path.join(wd, "home"), GIT_CONFIG_NOSYSTEM="1", GIT_CONFIG_GLOBAL="/dev/null", TERM="xterm-256color",
+             GIT_AUTHOR_NAME="a", GIT_AUTHOR_EMAIL="a@example.invalid", GIT_COMMITTER_NAME="a",
+             GIT_COMMITTER_EMAIL="a@example.invalid", GIT_AUTHOR_DATE="2020-01-01T00:00:00Z",
+             GIT_COMMITTER_DATE="2020-01-01T00:00:00Z")
+    e.update(extra or {})
+    return e
+
+
+def make_repo(wd):
+    d = os.path.join(wd, "repo")
+    if os.path.isdir(d):
+        return d
+    os.makedirs(d)
+    p = subprocess.run(["sh", "-c", REPO_SCRIPT], cwd=d, env=sub_env(wd), stdout=subprocess.PIPE, stderr=subprocess.STDOUT, text=True)
+    return d if p.returncode == 0 else None
+
+
+def sub_run(ctx, wd, name, mode, schedule, tag, guess="none"):
+    """mode 'launch': `delta <opts> <cmd…>`; mode 'piped': `<real cmd> | delta <opts>` with the caller pinned."""
+    opts, cmd, _ = SUBCOMMANDS[name]
+    real = LAUNCH_PREFIX[cmd[0]] + cmd[1:]
+    repo = os.path.join(wd, "repo")
+    log = os.path.join(wd, "log-" + tag)
+    if os.path.exists(log):
+        os.remove(log)
+    extra = {"DELTA_VERIF_SCHEDULE_LOG": log}
+    try:
+        if mode == "launch":
+            extra["DELTA_VERIF_FORCE_GUESS"] = guess
+            if schedule:
+                extra.update(DELTA_VERIF_SCHEDULE=schedule, DELTA_VERIF_SCHEDULE_TIMEOUT_MS="6000", DELTA_VERIF_SCHEDULE_SETTLE_MS="20")
+            p = subprocess.run([ctx.delta, "--no-gitconfig", "--width=80"] + opts + cmd, cwd=repo, env=sub_env(wd, extra),
+                               stdin=subprocess.DEVNULL, stdout=subprocess.PIPE, stderr=subprocess.PIPE, timeout=RUN_TIMEOUT)
+        else:
+            src = subprocess.run(real, cwd=repo, env=sub_env(wd), stdin=subprocess.DEVNULL, stdout=subprocess.PIPE,
+                                 stderr=subprocess.PIPE, timeout=RUN_TIMEOUT)
+            extra["DELTA_VERIF_FORCE_GUESS"] = " ".join(real)
+            p = subprocess.run([ctx.delta, "--no-gitconfig", "--width=80"] + opts, cwd=repo, env=sub_env(wd, extra),
+                               input=src.stdout, stdout=subprocess.PIPE, stderr=subprocess.PIPE, timeout=RUN_TIMEOUT)
+        rc, out, err = p.returncode, p.stdout, p.stderr
+    except subprocess.TimeoutExpired as ex:
+        rc, out, err = "timeout", ex.stdout or b"", ex.stderr or b""
+    lines = open(log).read().split("\n") if os.path.exists(log) else []
+    if os.path.exists(log):
+        os.remove(log)
+    return dict(rc=rc, stdout=out, stderr=err.decode("utf-8", "replace")[-400:], log=[ln for ln in lines if ln])
+
+
+def hunk_lines_git_printed(wd, name):
+    """The hunk lines exactly as the launched git command prints them (colours removed)."""
+    opts, cmd, _ = SUBCOMMANDS[name]
+    p = subprocess.run(LAUNCH_PREFIX[cmd[0]] + cmd[1:], cwd=os.path.join(wd, "repo"), env=sub_env(wd),
+                       stdin=subprocess.DEVNULL, stdout=subprocess.PIPE, stderr=subprocess.PIPE)
+    lines = [_SGR.sub("", ln) for ln in p.stdout.decode("utf-8", "replace").split("\n")]
+    at = [i for i, ln in enumerate(lines) if ln.startswith("@@")]
+    return [ln for ln in lines[at[0] + 1:] if ln != ""] if at else None
+
+
+def sub_oracle(rep, name, mode_desc, schedule, run, want_lines, piped_out):
+    opts, cmd, word = SUBCOMMANDS[name]
+    scen = "sub:" + name
+    parsed = parse_log(run["log"])
+    shown = [_SGR.sub("", ln).rstrip() for ln in run["stdout"].decode("utf-8", "replace").split("\n")]
+    if shown and shown[-1] == "":
+        shown.pop()
+    replay = dict(scenario=scen, command=["delta", "--no-gitconfig", "--width=80"] + opts + cmd, schedule=schedule,
+                  pinned_guess="none", repository_script=REPO_SCRIPT, rc=run["rc"], log=run["log"][-40:],
+                  stderr=run["stderr"], shown_tail=shown[-8:], git_printed=want_lines, run=mode_desc)
+    bad = []
+
+    def v(tag, what):
+        bad.append(tag)
+        sig = "c20:%s:%s" % (scen, tag)
+        rep.count("oracle-failure:" + sig)
+        if sig not in _REPORTED:
+            _REPORTED.add(sig)
+            rep.violation(sig, what, replay)
+
+    if run["rc"] == "timeout":
+        v("blocks-forever", "delta did not terminate within %d s" % RUN_TIMEOUT)
+        return bad
+    before_pub = set()
+    for o in parsed["order"]:
+        if o == "known":
+            break
+        before_pub.add(int(o[3:]))
+    for k in sorted(parsed["queries"]):
+        q = parsed["queries"][k]
+        if not (q["ret"] and q["checks"]):
+            continue
+        res = q["checks"][-1]
+        if res == "Pending":
+            v("pending-returned", "query %d returned Pending" % k)
+        elif parsed["known"] is None or k in before_pub:
+            v("query-before-publication", "delta launched `%s` itself but query %d was answered (%r) before the launched "
+              "command was published" % (" ".join(cmd), k, res))
+        elif res != parsed["known"]:
+            v("guess-after-publication", "query %d returned %r although %r had been published" % (k, res, parsed["known"]))
+    if run["rc"] == 96:
+        return bad
+    if run["rc"] != 0:
+        v("exit-status", "exit status %r" % (run["rc"],))
+        return bad
+    if word and want_lines:
+        got = shown[-len(want_lines):]
+        if got != want_lines:
+            v("word-diff-lines-altered", "`delta %s`: the word-diff hunk lines are not shown as git printed them "
+              "(got %r, git printed %r): the launched command was not what the first query saw" % (" ".join(opts + cmd), got, want_lines))
+        elif any("⋮" in ln for ln in shown):
+            v("word-diff-line-numbers", "`delta %s`: line numbers shown for a word diff" % " ".join(opts + cmd))
+    if piped_out is not None and run["stdout"] != piped_out:
+        v("differs-from-piped", "`delta %s` renders differently from `%s | delta` with that caller pinned"
+          % (" ".join(opts + cmd), " ".join(LAUNCH_PREFIX[cmd[0]] + cmd[1:])))
+    return bad
+
+
+def subcommand_mode(ctx, rep, mdl, wd, schedules):
+    if make_repo(wd) is None:
+        rep.notes["subcommand_mode"] = "scratch repository could not be created (git missing?) - skipped"
+        return
+    jobs = []
+    for name in SUBCOMMANDS:
+        want = hunk_lines_git_printed(wd, name) if SUBCOMMANDS[name][2] else None
+        piped = sub_run(ctx, wd, name, "piped", None, "sub-piped-" + name)
+        piped_out = piped["stdout"] if piped["rc"] == 0 else None
+        if piped_out is None:
+            rep.notes.setdefault("subcommand_piped_failed", []).append(name)
+        for i in range(ctx.n(3, 10)):
+            jobs.append((name, "unforced run %d" % (i + 1), None, want, piped_out))
+        sel = schedules if (not ctx.quick() or SUBCOMMANDS[name][2]) else schedules[::5]
+        for s in sel:
+            jobs.append((name, "forced schedule", s, want, piped_out))
+        jobs.append((name, "attack:late-publication", ATTACK_LATE_PUB, want, piped_out))
+
+    def one(ij):
+        i, (name, desc, sched, want, piped_out) = ij
+        r = sub_run(ctx, wd, name, "launch", sched, "sub-%d" % i)
+        bad = sub_oracle(rep, name, desc, sched or "", r, want, piped_out)
+        ev = parse_log(r["log"])["events"]
+        return name, desc, sched, r["rc"], bad, (sched is None or ev == sched.split(","))
+
+    for name, desc, sched, rc, bad, completed in parallel_map(one, list(enumerate(jobs)), workers=12):
+        rep.case(key=("sub", name, desc, sched), nontrivial=True,
+                 sample=dict(scenario="sub:" + name, run=desc, schedule=sched, rc=rc, failures=bad))
+        kind = desc.split(" ")[0] if not desc.startswith("attack") else "attack"
+        rep.count("sub:%s:%s:%s" % (name, kind, "rc=%s" % rc))
+        if desc == "forced schedule":
+            # every model schedule (publication first, then the queries) must be executable by the binary
+            rep.corr_case("subcommand.schedule", completed and rc == 0,
+                          dict(scenario="sub:" + name, schedule=sched, rc=rc, failures=bad))
+        elif desc.startswith("attack"):
+            # the model rules this order out (the first query never precedes the publication)
+            rep.corr_case("subcommand.attack", rc == 96, dict(scenario="sub:" + name, schedule=sched, rc=rc, failures=bad))
+
+
 def shape_check(ctx, rep, mdl):
     """Statement order extracted from REPO now vs the order the model executes. The same fact
     is a theorem (Props/C20.lean shape_*); this copy does not depend on the shared Generated/
@@ -296,7 +501,8 @@ def shape_check(ctx, rep, mdl):
     spec.loader.exec_module(ex)
     try:
         src = ex.strip_hooks_and_comments(ex.strip_tests(ex.read(REPO, "src/utils/process.rs")))
-        got = dict(bg=ex.thread_closure(src), pub=ex.set_calling_process(src), query=ex.query(src))
+        got = dict(bg=ex.thread_closure(src), pub=ex.set_calling_process(src), query=ex.query(src),
+                   startup=ex.startup(ex.strip_hooks_and_comments(ex.read(REPO, "src/main.rs"))))
     except SystemExit as e:
         rep.broken_proofs.append("shape of process.rs not recognised: %s" % e)
         return
@@ -312,6 +518,10 @@ def shape_check(ctx, rep, mdl):
         if got[k] != want.get(k):
             rep.broken_proofs.append("C20.shape_%s: process.rs executes %s, the model %s"
                                      % ({"bg": "background", "pub": "publication", "query": "query"}[k], got[k], want.get(k)))
+    if got["startup"] != want.get("startup"):
+        rep.broken_proofs.append("C20.startup_publication_precedes_first_query / C20.startup_known_wins: in subcommand mode "
+                                 "main.rs executes %s, the model %s (the launched command must be published before "
+                                 "anything can query)" % (got["startup"], want.get("startup")))
 
 
 def _run(ctx, rep, mdl, wd):
@@ -393,6 +603,8 @@ def _run(ctx, rep, mdl, wd):
             else:
                 rep.corr_case("caller.run", not res["impl_feasible"], info)
 
+    subcommand_mode(ctx, rep, mdl, wd, feas.get("rg") or [])
+
     if not ctx.quick():
         stress(ctx, rep, wd, refs)
 
@@ -422,6 +634,22 @@ def stress(ctx, rep, wd, refs):
 def replay(ctx, rep, obj):
     c = obj.get("case") or {}
     scen, schedule = c.get("scenario"), c.get("schedule")
+    if isinstance(scen, str) and scen.startswith("sub:") and scen[4:] in SUBCOMMANDS:
+        name = scen[4:]
+        wd = workdir()
+        try:
+            if make_repo(wd) is None:
+                return
+            want = hunk_lines_git_printed(wd, name) if SUBCOMMANDS[name][2] else None
+            piped = sub_run(ctx, wd, name, "piped", None, "piped")
+            for i in range(3):
+                r = sub_run(ctx, wd, name, "launch", schedule or None, "replay-%d" % i)
+                bad = sub_oracle(rep, name, "replay", schedule or "", r, want, piped["stdout"] if piped["rc"] == 0 else None)
+                rep.case(key=(scen, schedule, i), nontrivial=True,
+                         sample=dict(scenario=scen, schedule=schedule, rc=r["rc"], log=r["log"][-40:], failures=bad))
+        finally:
+            shutil.rmtree(wd, ignore_errors=True)
+        return
     if scen not in SCENARIOS:
         return run(ctx, rep)
     wd = workdir()
